@@ -187,6 +187,18 @@ fn main() {
               if strip(&new_errors) != strip(&original_errors) {
                 report("rename-changes-diagnostics".into(), format!("diagnostics after rename {:?} vs before {:?}", strip(&new_errors), strip(&original_errors)));
               }
+              // nothing but the identifier is replaced: with the old name put back, the syntax tree of
+              // the renamed document (modifiers, imports, declarations, every expression) is the original's
+              if let (Some(d_new), Some(d_old)) = (dump_of(&renamed), dump_of(&original_text)) {
+                // (`{ f }` legitimately becomes `{ f as fresh }`, another tree: such renames are left to
+                // the rename-back comparison below)
+                let shorthands = |d: &str| d.matches("(shorthand=true)").count();
+                let (a, b) = (d_new.replace(fresh, &g.name), d_old);
+                if shorthands(&a) == shorthands(&b) && a != b {
+                  let first = a.lines().zip(b.lines()).find(|(x, y)| x != y).map(|(x, y)| format!("{:?} vs {:?}", x.trim(), y.trim())).unwrap_or_else(|| "different length".into());
+                  report("rename-changes-program".into(), format!("the renamed document differs from the original in more than the renamed identifier: {first}"));
+                }
+              }
               // every occurrence of the group must now carry the fresh name, nothing else
               let occurrences_renamed = synt::tokenize(&renamed).iter().filter(|t| t.text == fresh).count();
               if occurrences_renamed != want_refs.len() {
